@@ -9,8 +9,8 @@ import (
 
 func init() {
 	register(&Rule{
-		Name: "POOLRESET",
-		Doc: "state that is recycled through a sync.Pool is fully reset: for every struct type that a discovered putter returns to a pool, each field that the repository's Go code assigns after construction is also assigned in the putter (or in the reset method it calls) — a field left dirty leaks one call's state into the next call that gets the object",
+		Name:     "POOLRESET",
+		Doc:      "state that is recycled through a sync.Pool is fully reset: for every struct type that a discovered putter returns to a pool, each field that the repository's Go code assigns after construction is also assigned in the putter (or in the reset method it calls) — a field left dirty leaks one call's state into the next call that gets the object",
 		Configs:  "NP",
 		Floor:    map[string]int{"N": 4, "P": 4},
 		Controls: 1,
